@@ -29,6 +29,7 @@ def dispatch (line : String) : String :=
   if line.startsWith "core2 " then CoreDrv.run2 line else
   if line.startsWith "pexpr " then ParseDrv.run line else
   if line.startsWith "pprog " then ParseDrv.runProg line else
+  if line.startsWith "pfull " then ParseDrv.runFull line else
   if line.startsWith "resolve " then ResolveDrv.run line else
   match words line with
   | [] => "bad-op"
